@@ -232,6 +232,15 @@ func (p *Queue[T]) Send(ctx context.Context, item T) bool {
 				case p.empty <- struct{}{}:
 				default:
 				}
+				// Pass the wake-up on: the single token in full may have been
+				// consumed by a sender that lost the race for the freed slot,
+				// leaving another sender parked although a slot is free.
+				if int64(p.capacity)-(p.head.Load()-p.tail.Load()) > 0 {
+					select {
+					case p.full <- struct{}{}:
+					default:
+					}
+				}
 				return true
 			}
 		} else if diff < 0 {
@@ -309,6 +318,15 @@ func (p *Queue[T]) Recv(ctx context.Context) (T, bool) {
 					select {
 					case p.full <- struct{}{}:
 					default:
+					}
+					// Pass the wake-up on: the single token in empty may have been
+					// consumed by a receiver that found its slot not yet published,
+					// leaving another receiver parked although an item is queued.
+					if p.head.Load()-p.tail.Load() > 0 {
+						select {
+						case p.empty <- struct{}{}:
+						default:
+						}
 					}
 				}
 				return value, true
